@@ -149,7 +149,7 @@ def run(chk: core.Check):
         for clause, detail, text in o["mism"]:
             report(chk, clause, detail, text)
     # ---- T3 ----
-    pool = ["a", "b", "c", "A"]
+    pool = ["a", "b", "c", "A", "ß", "ss"]
     refvals = pool + ["{a}", '"b"', "a # b", "1", "c # {x}", '"a" # b', "{ a }", "ab"]
     docs = []
     for i in range(nrand):
